@@ -245,6 +245,8 @@ class Session:
                 _uuid.uuid4 = _real_uuid4
                 if gc_was:
                     gc.enable()
+        obs.extra["raised"] = self.ctx.raised
+        obs.extra["status_excs"] = self.ctx.status_excs
         obs.timeline = self.timeline
         obs.docs = self.docs
         obs.msgs = self.msgs
